@@ -68,6 +68,11 @@ def gen(rng, tier):
         cases.append({"formula": fml, "frame": fr, "na": rng.choice(["drop", "drop", "error"]) if fml == "1" else "drop",
                       "perm": perm, "index": idx_kind, "colperm": colperm, "kind": kind + ("/long-frame" if long_ else ""),
                       **({"long": long_} if long_ else {}), **({"extra": extra_} if extra_ else {})})
+    # six cases also carry a check on a user function whose result is an UNORDERED Categorical with its categories in
+    # order of first appearance (see _appear_oracle; nothing is drawn from rng here)
+    for j, c_ in enumerate(cases[:6]):
+        c_["appear"] = {"seed": 1000 + j, "formula": ["y ~ apc(s)", "y ~ 0 + apc(s)", "y ~ x + apc(s)", "y ~ apc(s):x",
+                                                       "y ~ x + (1 | apc(s))", "apc(s) ~ x"][j]}
     return cases
 
 
@@ -228,7 +233,58 @@ def _long_oracle(c):
     return None
 
 
+def _appear_oracle(c):
+    """a call whose value is an unordered Categorical with categories in order of first appearance: the levels are
+    the sorted observed values, so permuting the rows permutes the matrices and changes no label"""
+    import numpy as np
+    import pandas as pd
+    from formulae import design_matrices
+    spec = c["appear"]
+    g = np.random.default_rng(spec["seed"])
+    n = 12
+    vals = list(g.permutation(["q", "m", "b", "t"])) + list(g.choice(["q", "m", "b", "t"], size=n - 4))
+    df = pd.DataFrame({"y": g.normal(size=n), "x": g.normal(size=n), "s": vals})
+    perm = g.permutation(n)
+    while list(pd.unique(df["s"].to_numpy()[perm])) == list(pd.unique(df["s"])):
+        perm = g.permutation(n)
+    ns = {"apc": (lambda v: pd.Categorical(np.asarray(v), categories=pd.unique(np.asarray(v))))}
+    f = spec["formula"]
+
+    def parts(d):
+        out = []
+        for m_ in (d.response, d.common, d.group):
+            if m_ is None:
+                out.append(None)
+                continue
+            M = np.asarray(m_.design_matrix, dtype=float)
+            M = M[:, None] if M.ndim == 1 else M
+            lab = [str(t) + ":" + str(getattr(m_.terms[t], "labels", None) or getattr(m_.terms[t], "levels", None)) for t in m_.terms] \
+                if hasattr(m_, "terms") and isinstance(m_.terms, dict) else [str(getattr(m_, "levels", None))]
+            out.append((lab, M))
+        return out
+    try:
+        p1 = parts(design_matrices(f, df, extra_namespace=ns))
+        p2 = parts(design_matrices(f, df.iloc[perm].reset_index(drop=True), extra_namespace=ns))
+    except Exception as e:
+        return f"{f!r} with apc = Categorical in order of appearance raises {type(e).__name__}: {str(e)[:80]}"
+    for a, b in zip(p1, p2):
+        if (a is None) != (b is None):
+            return f"{f!r}: a matrix is present on one row order only"
+        if a is None:
+            continue
+        if a[0] != b[0]:
+            return (f"{f!r} (apc(s) = unordered Categorical of s with categories in order of first appearance): permuting "
+                    f"the rows changes the labels / levels from {a[0]} to {b[0]}")
+        if a[1].shape != b[1].shape or not np.allclose(b[1], a[1][perm], rtol=1e-9, atol=1e-9):
+            return f"{f!r} (apc(s) = Categorical in order of appearance): permuting the rows does not permute the matrix"
+    return None
+
+
 def oracle(c):
+    if c.get("appear"):
+        msg = _appear_oracle(c)
+        if msg:
+            return msg
     if c.get("long"):
         msg = _long_oracle(c)
         if msg:
